@@ -78,6 +78,36 @@ theorem add_metric_guard (F : List Char → Option Rat) (s : State) (name : Name
     step F s (.addMetric name v) = (s, .error .value) := by
   simp [step, addMetric, h]
 
+/-- A stored metric handed back as an integer metric (`add_cycle_metric(name, C.metrics[src], dtype=int)`): in every
+    reachable state the call succeeds, stores the integer form (NaN → -1, truncation towards zero) of `src` under
+    `name`, and — when the two names differ — leaves `src` EXACTLY as it was: "every stored metric equals the
+    function applied to that cycle's samples" cannot be undone by adding another metric (round 6, seeded change
+    C15-12: the int branch rewrote the NaN of the array it was given, i.e. of the stored metric). -/
+theorem add_from_int_spec (F : List Char → Option Rat) (s : State) (hI : Inv s) (name src : Name) (v : List Val)
+    (hv : sget s.metrics src = some v) :
+    step F s (.addFromInt name src) = ({ s with metrics := sset s.metrics name (toIntVals v) }, .ok .done) ∧
+    sget (step F s (.addFromInt name src)).1.metrics name = some (toIntVals v) ∧
+    (src ≠ name → sget (step F s (.addFromInt name src)).1.metrics src = some v) := by
+  have hl : (toIntVals v).length = s.K := by
+    unfold toIntVals; rw [List.length_map]; exact hI.lens _ (sget_mem hv)
+  have e : step F s (.addFromInt name src) = ({ s with metrics := sset s.metrics name (toIntVals v) }, .ok .done) := by
+    simp only [step, addFromInt, hv]; exact addMetric_ok _ _ _ hl
+  refine ⟨e, ?_, fun hne => ?_⟩
+  · rw [e]; exact sget_sset_same _ _ _
+  · rw [e]; simp only; rw [sget_sset_other _ _ _ _ hne]; exact hv
+
+/-- … and an unknown source name is a `KeyError` that changes nothing. -/
+theorem add_from_int_missing (F : List Char → Option Rat) (s : State) (name src : Name)
+    (hv : sget s.metrics src = none) : step F s (.addFromInt name src) = (s, .error .key) := by
+  simp [step, addFromInt, hv]
+
+/-- The integer form has no NaN left and is idempotent on integers already stored: -1 marks "no value". -/
+theorem toIntVals_no_nan (v : List Val) : ∀ x ∈ toIntVals v, x.isSome = true := by
+  intro x hx
+  unfold toIntVals at hx
+  obtain ⟨y, _, rfl⟩ := List.mem_map.mp hx
+  cases y <;> rfl
+
 /-! ## Metric values -/
 
 /-- A computed metric (cycle mode) has entry k = f applied to exactly the samples labelled k, for
